@@ -273,7 +273,19 @@ class CandRun(object):
             t = rng.choice(traits)
             params.append(('root_required',
                            ('!' if rng.random() < 0.4 else '') + t))
-        if vv >= (1, 36) and len(sfxs) >= 2 and rng.random() < 0.3:
+        subtree_members = list(sfxs)
+        if vv >= (1, 36) and sfxs and rng.random() < 0.25:
+            # a resourceless request group: traits only, tied to the others
+            # through same_subtree
+            s = '_T'
+            params.append(('required' + s, rng.choice(traits)))
+            subtree_members.append(s)
+            if not any(k == 'group_policy' for k, _ in params):
+                params.append(('group_policy',
+                               rng.choice(['none', 'isolate'])))
+            params.append(('same_subtree', ','.join(
+                ['_T'] + rng.sample(sfxs, rng.randint(1, len(sfxs))))))
+        elif vv >= (1, 36) and len(sfxs) >= 2 and rng.random() < 0.3:
             params.append(('same_subtree', ','.join(
                 rng.sample(sfxs, rng.randint(2, len(sfxs))))))
         return {'v': v, 'params': params, 'groups': groups}
